@@ -23,7 +23,7 @@ pub fn patch_lease(bytes: &[u8], secs: u32) -> Option<Vec<u8>> {
 }
 
 #[derive(Clone, Copy, PartialEq, Debug)]
-enum Leave {
+pub enum Leave {
     None,
     DeleteReader,
     DeleteParticipant,
